@@ -64,6 +64,10 @@ fn draw_plan_a(rng: &mut Prng, n: usize, seeds: Vec<[u8; 32]>) -> WorldPlan {
 /// execute a plan and return the salts with their context
 fn collect<V: Variant>(plan: &WorldPlan, keys: Keys<V>, run: u64, st: &mut Stats) -> Result<Vec<(u64, [u8; 40], Vec<u8>)>, (String, String)> {
     let (res, sched) = signers::execute::<V>(plan, keys);
+    if sched.free_running {
+        st.inc("inconclusive.schedule_infeasible");
+        return Ok(Vec::new());
+    }
     st.steps += sched.steps;
     st.add("sched.switches", sched.switches);
     if sched.switches > 0 {
